@@ -61,8 +61,14 @@ def ref_wellformed(n, edges, extras, switch, flags):
     return True, "well-formed"
 
 
-def build_method(n, edges, extras, switch, flags):
+PLACEMENTS = ["first", "last-in-dict", "last-by-name"]
+
+
+def build_method(n, edges, extras, switch, flags, placement="first"):
+    """placement: where the phase under examination sits relative to the (always clean) other phase -- first in the
+    phase dict and by name; last in the dict; last in the dict and by name"""
     from dagrt.language import Assign, DAGCode, ExecutionPhase, SwitchPhase
+    xn, cn = ("p1", "p0") if placement == "last-by-name" else ("p0", "p1")
     stmts = []
     for i in range(n):
         d = ["s%d" % j for (a, j) in edges if a == i]
@@ -71,7 +77,7 @@ def build_method(n, edges, extras, switch, flags):
         elif extras[i] == "cross":
             d.append("q0")
         if i == n - 1 and switch != "none":
-            stmts.append(SwitchPhase("p1" if switch == "existing" else MISSING_TARGETS[switch], id="s%d" % i,
+            stmts.append(SwitchPhase(cn if switch == "existing" else MISSING_TARGETS[switch], id="s%d" % i,
                                      depends_on=d))
         elif i == 0 and flags != "none":
             stmts.append(Assign(id="s0", assignee="<cond>c", assignee_subscript=(), expression=True, depends_on=d))
@@ -84,8 +90,9 @@ def build_method(n, edges, extras, switch, flags):
     q = [Assign(id="q0", assignee="<p>y", assignee_subscript=(), expression=1.5)]
     if flags == "one-per-phase":
         q.append(Assign(id="q1", assignee="<cond>c", assignee_subscript=(), expression=True, depends_on=["q0"]))
-    phases = {"p0": ExecutionPhase("p0", "p1", stmts), "p1": ExecutionPhase("p1", "p0", q)}
-    return DAGCode(phases, "p0")
+    px, pc = ExecutionPhase(xn, cn, stmts), ExecutionPhase(cn, xn, q)
+    phases = {xn: px, cn: pc} if placement == "first" else {cn: pc, xn: px}
+    return DAGCode(phases, xn)
 
 
 def feasible(n, switch, flags):
@@ -99,10 +106,10 @@ def feasible(n, switch, flags):
     return True
 
 
-def check_method(n, edges, extras, switch, flags, consumers=True, fortran=False):
+def check_method(n, edges, extras, switch, flags, consumers=True, fortran=False, placement="first"):
     from dagrt.codegen.analysis import CodeGenerationError, verify_code
     ok, reason = ref_wellformed(n, edges, extras, switch, flags)
-    dag = build_method(n, edges, extras, switch, flags)
+    dag = build_method(n, edges, extras, switch, flags, placement)
     verdict = None
     try:
         with kernel.time_limit(120):
@@ -110,7 +117,8 @@ def check_method(n, edges, extras, switch, flags, consumers=True, fortran=False)
         verdict = "accepted"
     except kernel.Budget:
         try:
-            kernel.with_line_budget(lambda: verify_code(build_method(n, edges, extras, switch, flags)), 3_000_000)
+            kernel.with_line_budget(lambda: verify_code(build_method(n, edges, extras, switch, flags, placement)),
+                                    3_000_000)
             verdict = "accepted"
         except kernel.Budget:
             return ("budget", "verify_code exceeded 3e6 line events (%s)" % reason), ("hang", reason)
@@ -205,6 +213,8 @@ def bounds(tier):
     return {"n<=3": "all 2^(n*n) digraphs x 3^n extra-edge tuples x 6 switch targets (none, existing, 4 missing ones incl. a prefix of / the joined / the empty name) x 5 flag patterns",
             "n=4": "all 65536 digraphs x " + ("(no extras; switch/flags on every 4th graph)" if tier == "quick" else
                                               "3 switch targets x 4 flag patterns + one dangling/cross edge"),
+            "placement": "n<=3: the examined phase first / last in the phase dict / last in the dict and by name (the other phase "
+            "is clean); n=4: first",
             "consumers": "interpreter (2 steps) + Python generator on every accepted method; Fortran generator for n<=3"}
 
 
@@ -213,7 +223,7 @@ def shards(tier, seed):
     return [{"tier": tier, "mod": m, "rem": r} for r in range(m)]
 
 
-def sig_of(sub, n, edges, extras, sw, fl):
+def sig_of(sub, n, edges, extras, sw, fl, placement="first"):
     best = None
     for perm in itertools.permutations(range(n)):
         # s0/s1/last carry roles when flags/switch are present: only relabel when no roles
@@ -226,7 +236,8 @@ def sig_of(sub, n, edges, extras, sw, fl):
         key = json.dumps([e, x])
         if best is None or key < best:
             best = key
-    return "C10/%s:n=%d %s switch=%s flags=%s" % (sub, n, best, sw, fl)
+    return "C10/%s:n=%d %s switch=%s flags=%s%s" % (sub, n, best, sw, fl,
+                                                   "" if placement == "first" else " placement=" + placement)
 
 
 def shrink(w, sub):
@@ -234,7 +245,7 @@ def shrink(w, sub):
         if not feasible(x["n"], x["switch"], x["flags"]):
             return False
         r, _ = check_method(x["n"], [tuple(e) for e in x["edges"]], tuple(x["extras"]), x["switch"], x["flags"],
-                            fortran=x["n"] <= 3)
+                            fortran=x["n"] <= 3, placement=x.get("placement", "first"))
         return r is not None and r[0] == sub
 
     def cands(x):
@@ -256,7 +267,8 @@ def shrink(w, sub):
                     break
                 ren = {i: (i if i < v else i - 1) for i in range(n) if i != v}
                 yield {"n": n - 1, "edges": [[ren[a], ren[b]] for a, b in x["edges"] if a != v and b != v],
-                       "extras": [x["extras"][i] for i in range(n) if i != v], "switch": "none", "flags": "none"}
+                       "extras": [x["extras"][i] for i in range(n) if i != v], "switch": "none", "flags": "none",
+                       "placement": x.get("placement", "first")}
     cur = w
     while True:
         for c in cands(cur):
@@ -274,39 +286,48 @@ def run_shard(desc, acc):
         if (i & 0x3ff) == 0 and acc.out_of_time():
             acc.cap("time cap in shard %r" % desc)
             return
-        acc.evaluations += 1
-        r, out = check_method(n, edges, extras, sw, fl, fortran=(n <= 3))
-        acc.outcome(json.dumps(out))
-        if edges or any(e != "none" for e in extras) or sw != "none" or fl != "none":
-            acc.nontrivial += 1
-        if out[0] == "accepted":
-            acc.count("accepted")
-        elif out[0] == "rejected":
-            acc.count("rejected")
-        if r is not None:
-            sub = r[0]
-            if acc.want_violation(sub):
-                w = {"n": n, "edges": [list(e) for e in edges], "extras": list(extras), "switch": sw, "flags": fl}
-                s = shrink(w, sub)
-                r2, _ = check_method(s["n"], [tuple(e) for e in s["edges"]], tuple(s["extras"]), s["switch"],
-                                     s["flags"], fortran=s["n"] <= 3)
-                acc.violation(sub, sig_of(sub, s["n"], s["edges"], s["extras"], s["switch"], s["flags"]), s,
-                              "%s\nmethod: %s" % ((r2 or r)[1], json.dumps(s)))
-            else:
-                acc.count_violation(sub)
-        elif i % 4001 == 0:
-            acc.sample({"n": n, "edges(i depends on j)": edges, "extras": extras, "switch": sw, "flags": fl,
-                        "verify_code": out[0], "reference": out[1]})
+        first_failed = False
+        for placement in (PLACEMENTS if n <= 3 else PLACEMENTS[:1]):
+            acc.evaluations += 1
+            r, out = check_method(n, edges, extras, sw, fl, fortran=(n <= 3), placement=placement)
+            acc.outcome(json.dumps(out))
+            if edges or any(e != "none" for e in extras) or sw != "none" or fl != "none":
+                acc.nontrivial += 1
+            if out[0] == "accepted":
+                acc.count("accepted")
+            elif out[0] == "rejected":
+                acc.count("rejected")
+            if r is not None:
+                sub = r[0]
+                if placement == "first":
+                    first_failed = True
+                elif first_failed:
+                    acc.count_violation(sub)        # fails wherever the phase sits: reported for the first placement
+                    continue
+                if acc.want_violation(sub):
+                    w = {"n": n, "edges": [list(e) for e in edges], "extras": list(extras), "switch": sw, "flags": fl,
+                         "placement": placement}
+                    s = shrink(w, sub)
+                    r2, _ = check_method(s["n"], [tuple(e) for e in s["edges"]], tuple(s["extras"]), s["switch"],
+                                         s["flags"], fortran=s["n"] <= 3, placement=placement)
+                    acc.violation(sub, sig_of(sub, s["n"], s["edges"], s["extras"], s["switch"], s["flags"], placement),
+                                  s, "%s\nmethod: %s" % ((r2 or r)[1], json.dumps(s)))
+                else:
+                    acc.count_violation(sub)
+            elif i % 4001 == 0 and placement == "first":
+                acc.sample({"n": n, "edges(i depends on j)": edges, "extras": extras, "switch": sw, "flags": fl,
+                            "verify_code": out[0], "reference": out[1]})
 
 
 def replay(witness):
     w = witness
+    pl = w.get("placement", "first")
     r, _ = check_method(w["n"], [tuple(e) for e in w["edges"]], tuple(w["extras"]), w["switch"], w["flags"],
-                        fortran=w["n"] <= 3)
+                        fortran=w["n"] <= 3, placement=pl)
     if r is None:
         return []
     s = shrink(w, r[0])
     r2, _ = check_method(s["n"], [tuple(e) for e in s["edges"]], tuple(s["extras"]), s["switch"], s["flags"],
-                         fortran=s["n"] <= 3)
-    return [{"sub": r[0], "sig": sig_of(r[0], s["n"], s["edges"], s["extras"], s["switch"], s["flags"]),
+                         fortran=s["n"] <= 3, placement=pl)
+    return [{"sub": r[0], "sig": sig_of(r[0], s["n"], s["edges"], s["extras"], s["switch"], s["flags"], pl),
              "witness": s, "detail": "%s\nmethod: %s" % ((r2 or r)[1], json.dumps(s))}]
